@@ -87,7 +87,9 @@ def r_C26bcdef(root):
                 ok = any(isinstance(s, ast.If) and ast.unparse(s.test) == "%s is None" % g and any(callee_name(c) == init for c in calls(s)) for s in fn.body)
                 if not ok: out.append(Finding("C26", "C26.b", rel, fn.name, g, "registry read without lazy (re)discovery guard"))
     clr = find(t, "clear_language_registrations"); inst += 1
-    assigned = {tg.id for n in own_nodes(clr) if isinstance(n, ast.Assign) for tg in n.targets if isinstance(tg, ast.Name)}
+    assigned = {x.id for n in own_nodes(clr) if isinstance(n, (ast.Assign, ast.AnnAssign, ast.AugAssign)) for tg in (n.targets if isinstance(n, ast.Assign) else [n.target]) for x in ast.walk(tg) if isinstance(x, ast.Name) and isinstance(x.ctx, ast.Store)}
+    for c_ in calls(clr):            # metamodels.clear() empties the cache as well
+        if callee_name(c_) == "clear" and isinstance(c_.func, ast.Attribute) and isinstance(c_.func.value, ast.Name): assigned.add(c_.func.value.id)
     if not {"languages", "metamodels"} <= assigned: out.append(Finding("C26", "C26.b", rel, "clear_language_registrations", str(sorted(assigned)), "clearing languages must also invalidate the metamodel cache"))
     # c: duplicates refused
     for fname, exc in (("register_language", "TextXRegistrationError"), ("register_generator", "TextXRegistrationError")):
@@ -167,7 +169,9 @@ def r_C04(root):
             regs[n.targets[0].id] = [e.id for k in n.value.keywords if k.arg == "nodes" for e in k.value.elts]
     procs = None
     for n in ast.walk(find(mm, "TextXMetaModel.__init__")):
-        if isinstance(n, ast.Assign) and ast.unparse(n.targets[0]) == "self._default_obj_processors": procs = {k.value: v for k, v in zip(n.value.keys, n.value.values)}
+        if isinstance(n, ast.Assign) and ast.unparse(n.targets[0]) == "self._default_obj_processors":
+            d_ = dict_literal_of(n.value, mm)
+            if d_ is not None: procs = {k.value: v for k, v in zip(d_.keys, d_.values) if isinstance(k, ast.Constant)}
     if procs is None: raise AnalysisError("default processors table not found")
     # b: BOOL table
     # the BOOL token decided with the regex engine itself (Python's re: the semantics of the pattern, a trusted base): exactly the
@@ -262,15 +266,7 @@ def r_C25(root):
     fi = sem.info(ni)
     reg = [c for c in calls(ni) if isinstance(c.func, ast.Attribute) and c.func.attr in ("append", "insert", "extend", "appendleft") and "_imported_namespaces" in fi.text(c.func.value, at=c)]
     if not reg or any(c.func.attr != "append" for c in reg): out.append(Finding("C25", "C25.c", rel, "TextXMetaModel._new_import", ast.unparse(reg[0]) if reg else "", "imported namespace is not appended in import order"))
-    fq = find_i(root, rel, "TextXMetaModel._cls_fqn"); inst += 1
-    def fqn(ns):
-        self_ = {".kind": "metamodel", "._namespace_stack": ["x", ns], ".namespaces": {"x": {}, ns: {}}, "._imported_namespaces": {}, ".debug": False}
-        env = {fq.args.args[0].arg: self_, fq.args.args[1].arg: {".__name__": "Cls"}, "__functions__": {k_: v_ for k_, v_ in helper_functions(root, rel, "TextXMetaModel._cls_fqn").items() if k_ != "_cls_fqn"}}
-        return pyeval.run_block(fq.body, env)
-    try: gotq = [fqn("pkg.mod"), fqn("__base__"), fqn(None), fqn("base"), fqn("a"), fqn("_"), fqn("__base__x")]
-    except pyeval.Unsupported as e: raise AnalysisError("TextXMetaModel._cls_fqn: %s" % e)
-    if gotq != ["pkg.mod.Cls", "Cls", "Cls", "base.Cls", "a.Cls", "_.Cls", "__base__x.Cls"]:
-        out.append(Finding("C25", "C25.d", rel, "TextXMetaModel._cls_fqn", "fqn of Cls in pkg.mod / __base__ / None / base / a / _ / __base__x -> %s" % gotq, "qualified class name is %s, documented: namespace + '.' + name, bare name in the base namespace" % gotq))
+    # C25.d (qualified class name) is decided by evaluation of _init_class: sa/rules/cmeta.py
     return inst, out
 ALL = [r_C26a, r_C26bcdef, r_C21a, r_C04, r_C25]
 if __name__ == "__main__":
